@@ -23,6 +23,10 @@ type Native struct {
 	// SymJSON: when set, every native run gets the job's configuration plus zz_sym.json with
 	// this content (the verification-only class Sym declared natively with the witnessed kinds).
 	SymJSON string
+	// ExtraCfg: extra configuration files (name -> content) a counterexample was found under
+	// (witness "extra-config-files"); written as z_<name> so that they load after the shipped
+	// files, as in the harness.
+	ExtraCfg map[string]string
 }
 
 func goEnv() []string {
@@ -68,7 +72,7 @@ func (n *Native) RunTi(files map[string]string, args []string, cfg string) (stri
 	if cfg == "" {
 		cfg = filepath.Join(repoDir, "test", ".ti-config")
 	}
-	if n.SymJSON == "" {
+	if n.SymJSON == "" && len(n.ExtraCfg) == 0 {
 		os.Symlink(cfg, filepath.Join(wd, ".ti-config"))
 	} else {
 		dir := filepath.Join(wd, ".ti-config")
@@ -79,7 +83,12 @@ func (n *Native) RunTi(files map[string]string, args []string, cfg string) (stri
 				os.Symlink(real, filepath.Join(dir, e.Name()))
 			}
 		}
-		os.WriteFile(filepath.Join(dir, "zz_sym.json"), []byte(n.SymJSON), 0o644)
+		if n.SymJSON != "" {
+			os.WriteFile(filepath.Join(dir, "zz_sym.json"), []byte(n.SymJSON), 0o644)
+		}
+		for name, c := range n.ExtraCfg {
+			os.WriteFile(filepath.Join(dir, "z_"+name), []byte(c), 0o644)
+		}
 	}
 	for name, content := range files {
 		p := filepath.Join(wd, name)
